@@ -94,3 +94,22 @@ Example C01_hyps_satisfiable :
   satb rc1 (fun p s => String.prefix "a" s) fo0 md_plain ex_schema ex_good = true /\
   satb rc1 (fun p s => String.prefix "a" s) fo0 md_plain ex_schema ex_bad = false.
 Proof. vm_compute. repeat split; reflexivity. Qed.
+
+(* ---- the pattern keyword: how a pattern reaches Go's regexp ---- *)
+(* (The regular-expression engine itself is an oracle of C01_visit_iff_sat; the translation in front
+   of it is modelled: Model/Pattern.v.)  Read a pattern as ECMA 262 does - a sequence of plain
+   characters, escape pairs and code point escapes \uXXXX (hexadecimal digits of either case): the
+   rewriting maps every unit on its own, a code point escape to \x{XXXX} and anything else to
+   itself.  In particular the u after an escaped backslash is left alone, and two adjacent
+   escapes are both rewritten - the two defects repaired in /repo (c07d433) and the seeded change
+   C01-10 are exactly the ways to break this. *)
+From KV Require Import Model.Pattern Proofs.PatternProofs.
+Theorem C01_pattern_escapes_rewritten_unitwise :
+  forall us, canonical us = true -> into_go (text us) = go_text us.
+Proof. exact into_go_units. Qed.
+Print Assumptions C01_pattern_escapes_rewritten_unitwise.
+Theorem C01_pattern_without_backslash_unchanged : forall s, no_bslash s = true -> into_go s = s.
+Proof. exact into_go_plain. Qed.
+Example C01_pattern_rewriting_examples :
+  into_go "^h\u00e9llo$" = "^h\x{00e9}llo$" /\ into_go "^\\u0041$" = "^\\u0041$" /\ into_go "^\u0041\u0042+$" = "^\x{0041}\x{0042}+$".
+Proof. vm_compute. repeat split. Qed.
